@@ -2238,6 +2238,15 @@ pub fn run(args: &Args) {
             let (ops, initial) = gen_mmio_wide(&mut rng, i as usize);
             mmio_case(&mut cx, &ops, initial, i < 2 && initial <= 16);
         }
+        // every var-int length incl. the ten-byte ones (values >= 2^63), in a small (buffered) and a mapped (> 4 KiB) file
+        for (pad, initial) in [(0usize, 16usize), (5000, 4096)] {
+            let mut ops: Vec<Value> = vec![];
+            if pad > 0 { ops.push(json!(["bytes", hex(&vec![0xA5u8; pad])])); }
+            for k in 1..=9u32 { ops.push(json!(["var", (1u64 << (7 * k)) - 1])); ops.push(json!(["var", 1u64 << (7 * k)])); }
+            for v in [0u64, (1 << 63) - 1, 1 << 63, (1 << 63) + 1, u64::MAX - 1, u64::MAX, i64::MIN as u64, (-1i64) as u64] { ops.push(json!(["var", v])); ops.push(json!(["u8", 7])); }
+            ops.push(json!(["u64", u64::MAX])); ops.push(json!(["str", "end"]));
+            mmio_case(&mut cx, &ops, initial, false);
+        }
     }
     if args.replay.is_none() { wide::run_families(&mut cx, &mut rng, args.thorough); }
     cx.sum.dist_max("images_reopened_in_reader_process", cx.images);
